@@ -69,7 +69,7 @@ def run(rep, tier):
             w = desc["size"] * 8
             bad = []
             for d, s in pairs:
-                cps, problems = cl_paths(cm, v, d, s)
+                cps, problems = cl_paths(cm, v, d, s, sequential=False)
                 bad.extend(problems)
                 from props.c04 import compare as cmp04
                 bad.extend("pair (%d,%d): %s" % (d, s, x) for x in cmp04(interp_paths(imc, v, d, s), cps, desc))
